@@ -27,11 +27,12 @@ inductive Err
   | missing   -- "missing data"
   | index     -- "invalid leaf index"
   | prv       -- private key out of 1..n-1
+  | version   -- "invalid leaf version"  (leaf_hash: outside 0..255)
   deriving DecidableEq, Repr
 
 def Err.name : Err → String
   | .toolong => "toolong" | .badlen => "badlen" | .tweak => "tweak" | .key => "key"
-  | .missing => "missing" | .index => "index" | .prv => "prv"
+  | .missing => "missing" | .index => "index" | .prv => "prv" | .version => "version"
 
 /-- a script tree: `[(version, script)]` is a leaf, `[left, right]` a branch -/
 inductive Tree where
@@ -56,9 +57,14 @@ def varBytes (s : Bytes) : Bytes :=
   | .ok pre => pre ++ s
   | .error _ => s
 
-/-- `leaf_hash(leaf_version, script)`; callers hand a version already masked (< 256) -/
+/-- the hash `leaf_hash` computes for a version byte `v < 256` (every internal caller masks with 0xFE first) -/
 def leafHash (H : TagHash) (v : Nat) (script : Bytes) : Bytes :=
   H TAG_LEAF (UInt8.ofNat v :: varBytes script)
+
+/-- the PUBLIC `leaf_hash(leaf_version, script)`: an integer version outside `0..255` is refused
+    (`BTClibValueError("invalid leaf version")`), never wrapped -/
+def leafHashPub (H : TagHash) (v : Int) (script : Bytes) : Except Err Bytes :=
+  if ¬ (0 ≤ v ∧ v ≤ LEAF_VERSION_MAX) then .error .version else .ok (leafHash H v.toNat script)
 
 /-- the branch hash of `tree_helper`: children sorted, `right < left` swaps -/
 def branchHash (H : TagHash) (lh rh : Bytes) : Bytes :=
